@@ -63,7 +63,38 @@ def _simple_helper(fn: ast.FunctionDef) -> Optional[str]:
         return "stmts"
     if len(rets) == 1 and b[-1] is rets[0]:
         return "stmts"
+    # guard-clause form: every return is in tail position once `if c: return X` + rest is read as if/else
+    b2 = _guards_to_else(copy.deepcopy(b))
+    n_tail = _tail_returns(b2)
+    if n_tail is not None and n_tail == len(rets) and len(rets) <= 8:
+        return "tail"
     return None
+
+
+def _tail_returns(stmts) -> Optional[int]:
+    """number of returns when every path through stmts ends in a `return` in tail position (and no other return), else None"""
+    if not stmts:
+        return None
+    for st in stmts[:-1]:
+        if any(isinstance(n, ast.Return) for n in ast.walk(st)):
+            return None
+    last = stmts[-1]
+    if isinstance(last, ast.Return):
+        return 1
+    if isinstance(last, ast.If) and last.orelse and not any(isinstance(n, ast.Return) for n in ast.walk(last.test)):
+        a, b = _tail_returns(last.body), _tail_returns(last.orelse)
+        return None if a is None or b is None else a + b
+    return None
+
+
+def _replace_tail(stmts, make) -> None:
+    last = stmts[-1]
+    if isinstance(last, ast.Return):
+        new = make(last.value if last.value is not None else ast.Constant(value=None), last)
+        stmts[-1:] = new
+    elif isinstance(last, ast.If):
+        _replace_tail(last.body, make)
+        _replace_tail(last.orelse, make)
 
 
 class _Rename(ast.NodeTransformer):
@@ -217,6 +248,30 @@ def _inline_block(M, fn, stmts: List[ast.stmt], caller_locals: set, changed: Lis
             call = st.value
         h = _resolve_helper(M, fn, call) if call is not None else None
         kind = _simple_helper(h.node) if h is not None else None
+        if h is not None and kind == "tail":
+            pre = []
+            mp = _bind(h, call, pre)
+            if mp is not None:
+                own = _locals_of(h.node) - set(x.arg for x in h.node.args.posonlyargs + h.node.args.args + h.node.args.kwonlyargs)
+                ren = dict(mp)
+                for v in own:
+                    if v in caller_locals or v in mp:
+                        ren[v] = ast.Name(id=f"{v}__{h.node.name.strip('_')}{next(_counter)}", ctx=ast.Load())
+                body = _guards_to_else([_Rename(ren).visit(x) for x in copy.deepcopy(_body_wo_doc(h.node))])
+
+                def make(val, at, st=st):
+                    if isinstance(st, ast.Return):
+                        return [ast.copy_location(ast.Return(value=val), at)]
+                    if isinstance(st, ast.Expr):
+                        return [ast.copy_location(ast.Expr(value=val), at)] if not isinstance(val, (ast.Name, ast.Constant)) else [ast.copy_location(ast.Pass(), at)]
+                    st2 = copy.deepcopy(st)
+                    st2.value = val
+                    return [ast.copy_location(st2, at)]
+                _replace_tail(body, make)
+                changed.append(h.qual)
+                out.extend(pre)
+                out.extend(body)
+                continue
         if h is not None and kind in ("stmts", "expr"):
             pre: List[ast.stmt] = []
             mp = _bind(h, call, pre)
@@ -394,6 +449,26 @@ def _guards_to_else(stmts: List[ast.stmt]) -> List[ast.stmt]:
     return out
 
 
+def _split_tuple_assigns(node) -> None:
+    """a, b = x, y  ->  a = x; b = y   (plain names on the left, none of them read on the right)"""
+    for block in _blocks(node):
+        i = 0
+        while i < len(block):
+            st = block[i]
+            if isinstance(st, ast.Assign) and len(st.targets) == 1 and isinstance(st.targets[0], ast.Tuple) and \
+                    isinstance(st.value, ast.Tuple) and len(st.value.elts) == len(st.targets[0].elts) and \
+                    all(isinstance(t, ast.Name) for t in st.targets[0].elts) and \
+                    not any(isinstance(x, ast.Starred) for x in st.value.elts):
+                names = {t.id for t in st.targets[0].elts}
+                if not any(isinstance(n, ast.Name) and n.id in names for n in ast.walk(st.value)):
+                    new = [ast.copy_location(ast.Assign(targets=[ast.Name(id=t.id, ctx=ast.Store())], value=v), st)
+                           for t, v in zip(st.targets[0].elts, st.value.elts)]
+                    block[i:i + 1] = new
+                    i += len(new)
+                    continue
+            i += 1
+
+
 def _blocks(node):
     """every statement list of a function (no nested definitions)"""
     out = []
@@ -450,7 +525,22 @@ def _forward_subst(fn_node: ast.FunctionDef, keep: set) -> None:
                             if isinstance(b, ast.Name) and b.id == v:
                                 mutated = True
                 # a use inside a loop / comprehension would re-evaluate the expression: only substitute outside loops
-                in_loop = any(isinstance(s2, (ast.For, ast.While)) and any(isinstance(n, ast.Name) and n.id == v for n in ast.walk(s2)) for s2 in rest)
+                def _mentions(x):
+                    return any(isinstance(n, ast.Name) and n.id == v for n in ast.walk(x))
+                in_loop = False
+                for s2 in rest:
+                    for n in ast.walk(s2):
+                        if isinstance(n, ast.For) and any(_mentions(b) for b in n.body + n.orelse):
+                            in_loop = True       # (the iterable of a for is evaluated once: a use there is fine)
+                        elif isinstance(n, ast.While) and _mentions(n):
+                            in_loop = True
+                        elif isinstance(n, (ast.ListComp, ast.SetComp, ast.DictComp, ast.GeneratorExp)):
+                            inner = [n.elt] if not isinstance(n, ast.DictComp) else [n.key, n.value]
+                            inner += [c for g in n.generators for c in g.ifs] + [g.iter for g in n.generators[1:]]
+                            if any(_mentions(b) for b in inner):
+                                in_loop = True
+                        elif isinstance(n, ast.Lambda) and _mentions(n.body):
+                            in_loop = True
                 # an operand stored through between the definition and the last use would change what the expression sees
                 last = max(k for k, s2 in enumerate(rest) if any(isinstance(n, ast.Name) and n.id == v for n in ast.walk(s2)))
                 for s2 in rest[:last]:
@@ -480,6 +570,36 @@ def _forward_subst(fn_node: ast.FunctionDef, keep: set) -> None:
             return
 
 
+_OPS = {"ge": ast.GtE, "gt": ast.Gt, "le": ast.LtE, "lt": ast.Lt, "eq": ast.Eq, "ne": ast.NotEq}
+_BINOPS = {"add": ast.Add, "sub": ast.Sub, "mul": ast.Mult, "truediv": ast.Div, "floordiv": ast.FloorDiv, "mod": ast.Mod,
+           "and_": ast.BitAnd, "or_": ast.BitOr, "xor": ast.BitXor}
+
+
+class _OperatorCalls(ast.NodeTransformer):
+    """(f if c else g)(args) -> f(args) if c else g(args);  operator.ge(a, b) -> a >= b"""
+
+    def __init__(self, M, fn):
+        self.M, self.fn = M, fn
+
+    def visit_Call(self, n):
+        n = self.generic_visit(n)
+        if isinstance(n.func, ast.IfExp) and not n.keywords and all(isinstance(a, (ast.Name, ast.Attribute, ast.Constant, ast.BinOp, ast.IfExp, ast.UnaryOp))
+                                                                    for a in n.args):
+            a = ast.Call(func=n.func.body, args=copy.deepcopy(n.args), keywords=[])
+            b = ast.Call(func=n.func.orelse, args=copy.deepcopy(n.args), keywords=[])
+            r = ast.IfExp(test=n.func.test, body=self.visit_Call(ast.copy_location(a, n)), orelse=self.visit_Call(ast.copy_location(b, n)))
+            return ast.copy_location(r, n)
+        f = n.func
+        if isinstance(f, ast.Attribute) and isinstance(f.value, ast.Name) and len(n.args) == 2 and not n.keywords:
+            r = self.M.resolve(self.fn.mod, f.value.id)
+            if r and r[0] == "external" and r[1] in ("operator", "_operator"):
+                if f.attr in _OPS:
+                    return ast.copy_location(ast.Compare(left=n.args[0], ops=[_OPS[f.attr]()], comparators=[n.args[1]]), n)
+                if f.attr in _BINOPS:
+                    return ast.copy_location(ast.BinOp(left=n.args[0], op=_BINOPS[f.attr](), right=n.args[1]), n)
+        return n
+
+
 def normalise(M, fn, subst: bool = False, guards: bool = False, keep=()) -> ast.FunctionDef:
     """a normalised deep copy of fn.node (see module docstring)"""
     node = copy.deepcopy(fn.node)
@@ -494,6 +614,8 @@ def normalise(M, fn, subst: bool = False, guards: bool = False, keep=()) -> ast.
     if guards:
         node.body = _guards_to_else(node.body)
     if subst:
+        _split_tuple_assigns(node)
         _forward_subst(node, set(keep))
+    node = _OperatorCalls(M, fn).visit(node)
     ast.fix_missing_locations(node)
     return node
